@@ -205,6 +205,31 @@ pub fn build_pool(thorough: bool) -> Pool {
     p.lit(o(vec![("a", o(vec![("n", i(1))])), ("b", o(vec![("n", i(2))]))]));
     p.lit(o(vec![("a", o(vec![("n", i(1))])), ("b", o(vec![("n", s("x"))]))]));
     p.lit(o(vec![("a", o(vec![("n", i(1))])), ("b", o(vec![("n", i(1))]))]));
+    // Values well beyond the small scope: a difference or a mismatch only at
+    // the far end of long lists and many-key objects.
+    let long: Vec<V> = (0..40).map(i).collect();
+    let mut long2 = long.clone();
+    long2[39] = i(99);
+    let mut long3 = long.clone();
+    long3[33] = s("x");
+    p.lit(l(long.clone()));
+    p.lit(l(long2));
+    p.lit(l(long3));
+    let id = p.ident();
+    p.add("@ := 0 .. 40", l(long.clone()), id, "range of 40", false);
+    let id = p.ident();
+    p.add("@ := (0 .. 17) + (17 .. 40)", l(long.clone()), id, "concatenation of ranges", false);
+    let keys: Vec<String> = (0..33).map(|k| format!("key{k:02}")).collect();
+    let big: Vec<(&str, V)> = keys.iter().enumerate().map(|(k, n)| (n.as_str(), i(k as i64))).collect();
+    p.lit(o(big.clone()));
+    let mut big2 = big.clone();
+    big2[32].1 = i(-1);
+    p.lit(o(big2));
+    let mut big3 = big.clone();
+    big3[20].1 = V::Null;
+    p.lit(o(big3));
+    let id = p.ident();
+    p.add("@ := {}\nfor [_, n] in 0 .. 33 {\n    @[\"key\" + \"0123\"[n / 10] + \"0123456789\"[n % 10]] = 32 - n\n}\nfor [k, v] in {@..} {\n    @[k] = 32 - v\n}", o(big.clone()), id, "33 keys inserted in descending value order by a loop", false);
     // The same child shared between two operands.
     p.setup.push_str("shared := [1, 2]\n");
     for _ in 0..2 {
@@ -618,14 +643,77 @@ fn mutation_histories(ctx: &Ctx) {
     ctx.judge_all(cases, Via::Fast, None);
 }
 
+// Values far deeper than the pool (chains of 100..400 containers built in a
+// loop) and self-containing operands compared with finite ones.
+fn deep_and_cyclic(ctx: &Ctx) {
+    let mut cases = vec![];
+    let helpers = "fn mk(n, leaf, j) {\n    v := leaf\n    for [i, _] in 0 .. n {\n        val := 1\n        if i == j {\n            val = 2\n        }\n        v = {\"next\": v, \"val\": val}\n    }\n    return v\n}\nfn ml(n, leaf, j) {\n    v := leaf\n    for [i, _] in 0 .. n {\n        if i == j {\n            v = [v, 2]\n        } else {\n            v = [v, 1]\n        }\n    }\n    return v\n}\n";
+    for n in [100i64, 127, 128, 129, 130, 200, 255, 256, 257, 400] {
+        for (mkf, shape) in [("mk", "linked objects"), ("ml", "nested lists")] {
+            for j in [0, 1, n / 2, n - 1] {
+                let src = format!("{helpers}a := {mkf}({n}, 0, -1)\nb := {mkf}({n}, 0, -1)\nc := {mkf}({n}, 1, -1)\nf := {mkf}({n}, 0, {j})\nprint([a == b, a != b, b == a, a === b, a == a])\nprint([a == c, a != c, c == a, c != a])\nprint([a == f, a != f, f == a, f != a])\nprint([a == b, a == c, a == f])\n");
+                let want = "[\n    true,\n    false,\n    true,\n    false,\n    true,\n]\n[\n    false,\n    true,\n    false,\n    true,\n]\n[\n    false,\n    true,\n    false,\n    true,\n]\n[\n    true,\n    false,\n    false,\n]\n";
+                ctx.label("deep chain");
+                cases.push((Case{property: "C10".into(), kind: "deep".into(), srcs: vec![src.into_bytes()], pred: Pred::Expect(Expect::ok(want.as_bytes().to_vec())), note: format!("{shape}, {n} deep, copies differing at the leaf or at level {j}")}, true));
+            }
+            for (la, lb, ta, tb) in [("0", "\"s\"", "int", "string"), ("\"s\"", "0", "string", "int"), ("null", "[]", "null", "list"), ("{}", "true", "object", "bool")] {
+                let src = format!("{helpers}a := {mkf}({n}, {la}, -1)\nd := {mkf}({n}, {lb}, -1)\nprint(\"before\")\nprint(a == d)\n");
+                let mut e = Expect::err(b"before\n".to_vec());
+                e.diag = vec![DiagPred::MsgContains(vec!["'=='".into(), format!("'{ta}'"), format!("'{tb}'")])];
+                ctx.label("deep chain");
+                cases.push((Case{property: "C10".into(), kind: "deep".into(), srcs: vec![src.into_bytes()], pred: Pred::Expect(e), note: format!("{shape}, {n} deep, leaves of type {ta} and {tb}")}, true));
+            }
+        }
+    }
+    // A self-containing operand against a finite one: every answer below
+    // follows from lengths / key sets / the first differing scalar alone.
+    let cyc: Vec<(&str, &str, &str)> = vec![
+        ("x := [0, 0]\nx[0] = x\n", "x", "[[0, 0, 0], 0]"),
+        ("x := [0, 0]\nx[0] = x\n", "x", "[[[0, 0, 0], 0], 0]"),
+        ("x := [0, 0]\nx[0] = x\n", "x", "[[[[[0], 0], 0], 0], 0]"),
+        ("x := [0, 0]\nx[1] = x\n", "x", "[0, [0, [0, [0, 0, 0]]]]"),
+        ("x := [0, 0]\nx[1] = x\n", "x", "[0, [1, 0]]"),
+        ("x := [0]\ny := [x]\nx[0] = y\n", "x", "[[[[[]]]]]"),
+        ("x := [0]\ny := [x]\nx[0] = y\n", "y", "[[[[0, 0]]]]"),
+        ("o := {\"k\": 0, \"n\": 1}\no.k = o\n", "o", "{\"k\": {\"a\": 0}, \"n\": 1}"),
+        ("o := {\"k\": 0, \"n\": 1}\no.k = o\n", "o", "{\"k\": {\"k\": {\"k\": {}, \"n\": 1}, \"n\": 1}, \"n\": 1}"),
+        ("o := {\"k\": 0, \"n\": 1}\no.k = o\n", "o", "{\"k\": {\"k\": {\"k\": 0, \"n\": 1, \"z\": 0}, \"n\": 1}, \"n\": 1}"),
+        ("o := {\"l\": [0]}\no.l[0] = o\n", "o", "{\"l\": [{\"l\": [{\"l\": []}]}]}"),
+        ("o := {\"l\": [0]}\no.l[0] = o\n", "o.l", "[{\"l\": [{\"l\": [0, 0]}]}]"),
+    ];
+    for (setup, l, r) in &cyc {
+        let src = format!("{setup}fin := {r}\nprint([{l} == fin, {l} != fin, fin == {l}, fin != {l}])\nprint({l} == {r})\nprint({r} != {l})\n");
+        let want = "[\n    false,\n    true,\n    false,\n    true,\n]\nfalse\ntrue\n";
+        ctx.label("self-containing operand against a finite one");
+        cases.push((Case{property: "C10".into(), kind: "cyclic_vs_finite".into(), srcs: vec![src.into_bytes()], pred: Pred::Expect(Expect::ok(want.as_bytes().to_vec())), note: format!("{l} (contains itself) against {r}")}, true));
+    }
+    // ... and where the finite operand runs out at a scalar: a type mismatch.
+    for (setup, l, r, ta, tb) in [
+        ("x := [0, 0]\nx[0] = x\n", "x", "[[0, 0], 0]", "list", "int"),
+        ("x := [0, 0]\nx[0] = x\n", "x", "[[[[\"s\", 0], 0], 0], 0]", "list", "string"),
+        ("o := {\"k\": 0}\no.k = o\n", "o", "{\"k\": {\"k\": {\"k\": null}}}", "object", "null"),
+    ] {
+        for flip in [false, true] {
+            let (a, b, t1, t2) = if flip { (r, l, tb, ta) } else { (l, r, ta, tb) };
+            let src = format!("{setup}print(\"before\")\nprint({a} == {b})\n");
+            let mut e = Expect::err(b"before\n".to_vec());
+            e.diag = vec![DiagPred::MsgContains(vec!["'=='".into(), format!("'{t1}'"), format!("'{t2}'")])];
+            ctx.label("self-containing operand against a finite one");
+            cases.push((Case{property: "C10".into(), kind: "cyclic_vs_finite".into(), srcs: vec![src.into_bytes()], pred: Pred::Expect(e), note: format!("{a} == {b}: the finite operand ends in a scalar")}, true));
+        }
+    }
+    ctx.judge_all(cases, Via::Cli, None);
+}
+
 pub fn run(ctx: &Ctx) {
-    ctx.set_rule("all ordered pairs of a pool of nested values (depth <= 3; literals, incremental key orders, spread / slice / concatenation / collected copies, aliases, shared children within and between operands, containers inside their comparand, functions nested) x {== != === !==}, transitivity/symmetry triples, compare / write / compare-again histories (1..3 writes of every kind: element, range, nested, op-assign, on either operand; expected values from the reference interpreter), random deeper pairs; oracle: structural comparison of the descriptions (mismatch-free => exactly the structural boolean; reachable mismatch => error naming a mismatching pair in operand order, or false when a difference may decide; never true, never a crash); values dumped before and after every batch of comparisons. Non-trivial = a pair with shared sub-structure, a non-literal construction history, or depth >= 2; distinct = distinct comparison expressions");
+    ctx.set_rule("all ordered pairs of a pool of nested values (depth <= 3; literals, incremental key orders, spread / slice / concatenation / collected copies, aliases, shared children within and between operands, containers inside their comparand, functions nested) x {== != === !==}, transitivity/symmetry triples, compare / write / compare-again histories (1..3 writes of every kind: element, range, nested, op-assign, on either operand; expected values from the reference interpreter), random deeper pairs, chains 100..400 containers deep (equal copies, copies differing at one level, leaves of different types), self-containing operands against finite ones; oracle: structural comparison of the descriptions (mismatch-free => exactly the structural boolean; reachable mismatch => error naming a mismatching pair in operand order, or false when a difference may decide; never true, never a crash); values dumped before and after every batch of comparisons. Non-trivial = a pair with shared sub-structure, a non-literal construction history, or depth >= 2; distinct = distinct comparison expressions");
     ctx.replay_corpus(Some(&custom));
     let pool = build_pool(ctx.tier == Tier::Thorough);
     ctx.set_extra("pool_size", serde_json::json!(pool.entries.len()));
     pairs_check(ctx, &pool);
     ctx.mark_exhaustive(&format!("all ordered pairs of the {}-value pool x 4 operators", pool.entries.len()));
     mutation_histories(ctx);
+    deep_and_cyclic(ctx);
     triples_check(ctx, &pool, ctx.n(20_000, 200_000) as usize);
     random_check(ctx, ctx.n(3_000, 300_000));
 }
